@@ -68,7 +68,12 @@ func C12(p *an.Prog, r *an.Report) {
 	// P7: the primitive readers (Integer, Date, I2PString, Hash, mapping codec) never index or slice
 	// beyond the input: the bounds proof of C04 restricted to package data
 	defer boundsFor(p, r, "C12.P7", 20, func(f *ssa.Function) bool { return strings.HasSuffix(an.FnPkgPath(f), "/data") })
-	r.Explanation = "Decides the domain clauses of the Integer/Date/String primitives statically: spec constants; for every constructor/decoder the set of (value, width) or input lengths it rejects, extracted by interval partitioning of its SSA paths and compared with the specified domain (widths 1..8, non-negative values up to 2^(8n)-1 for each width n evaluated separately, strings up to 255 bytes, fixed-size readers reject exactly len < size); only big-endian byte-order primitives are used anywhere in the library; narrowing integer conversions in package data are reached only with values that fit; UintSafe's value does not pass through a signed type. It does not decide decode∘encode = id as a value equality. P7: bounds proof (engine E11, as in C04) for every function of package data."
+	// P8: the primitives' own length arithmetic cannot wrap (a 255-byte string, an 8-byte integer);
+	// P9: encoders hand out fresh memory, not a pooled buffer the next call overwrites (same rules
+	// as C03.S4 and C19.P1)
+	defer narrowArith(p, r, "C12.P8", func(f *ssa.Function) bool { return strings.HasSuffix(an.FnPkgPath(f), "/data") })
+	defer c19NoCallHistory(p, r, "C12.P9")
+	r.Explanation = "Decides the domain clauses of the Integer/Date/String primitives statically: spec constants; for every constructor/decoder the set of (value, width) or input lengths it rejects, extracted by interval partitioning of its SSA paths and compared with the specified domain (widths 1..8, non-negative values up to 2^(8n)-1 for each width n evaluated separately, strings up to 255 bytes, fixed-size readers reject exactly len < size); only big-endian byte-order primitives are used anywhere in the library; narrowing integer conversions in package data are reached only with values that fit; UintSafe's value does not pass through a signed type. It does not decide decode∘encode = id as a value equality. P7: bounds proof (engine E11, as in C04) for every function of package data. P8: the primitives' length arithmetic in narrow integer types cannot wrap. P9: no package-level container is filled at run time (encoders hand out fresh memory)."
 	r.Rule = "one obligation per (function, quantity) region, per constant, per narrowing conversion, per fixed-size reader; non-trivial = region extracted from at least one branch"
 	r.Trusted = []string{"go/ssa", "encoding/binary.BigEndian semantics"}
 	r.Assumptions = []string{"int is 64 bits (the target the suite runs on)"}
